@@ -12,6 +12,14 @@ Streams
   pairs      (oracle) paired cached / uncached mappers over histories of (expression, extra args)
   scalars    (oracle) histories mixing 4 / 4.0 / True (top level and reached through `rec`)
   optimizer  (oracle) optimized user classes (all 32 option sets) vs their non-memoizing counterparts
+
+T-gen (extract/caching.py -> lean/PV/Generated/Caching.lean, regenerated on every run): the tuple of
+`get_cache_key`, the statement-by-statement protocol of `CachedMapper.__call__` and of the CSE
+mix-in, sentinel and cache creation, every caching class with its MRO and the class bodies that
+define the protocol attributes, the optimizer's rewriting loop, each live transformer class run on
+every dispatch expression of the model's syntax, and the rewritten source of the 4 x 32 optimized
+classes read back into the model's `Code`.  The optimized classes are built once per process and
+shared with the `optkeys` / `optimizer` streams.
 """
 from __future__ import annotations
 
@@ -970,15 +978,50 @@ def probe():
     got = outc(lambda: CachedIdentityMapper()(p.Sum((x, [1]))))
     ref = outc(lambda: IdentityMapper()(p.Sum((x, [1]))))
     res.append(("unhashable-list", got[0] != ref[0], f"cached {got!r}, plain {ref!r}"))
+
+    # 6. CachedStringifyMapper.__call__ hands over to CachedMapper.__call__ without the instance
+    #    (read by T-gen: row of c05CallOverrides, theorem cached_stringify_call_cex)
+    from pymbolic.mapper.stringifier import CachedStringifyMapper, StringifyMapper
+    got = outc(lambda: CachedStringifyMapper()(e))
+    ref = outc(lambda: StringifyMapper()(e))
+    res.append(("cached-stringify-call-unbound", got != ref,
+                f"CachedStringifyMapper()(x + x*y): {got!r}; StringifyMapper: {ref!r}"))
+
+    # 7. the deprecated CachingMapperMixin keys its cache by `expr` alone (T-gen:
+    #    c05DeprecatedMixinKey, theorem deprecated_mixin_key_cex)
+    import warnings
+
+    import pymbolic.mapper as pm
+    if hasattr(pm, "CachingMapperMixin"):
+        class _Typed:
+            def map_constant(self, expr):
+                return p.Variable(f"c_{type(expr).__name__}")
+
+        with warnings.catch_warnings():
+            warnings.simplefilter("ignore")
+            m = type("DM", (pm.CachingMapperMixin, _Typed, IdentityMapper), {})()
+            pl = type("DP", (_Typed, IdentityMapper), {})
+            m(4)
+            got, ref = outc(lambda: m(4.0)), outc(lambda: pl()(4.0))
+        res.append(("deprecated-mixin-key-ignores-type", got != ref,
+                    f"m(4); m(4.0) on a CachingMapperMixin mapper: {got!r}; plain mapper: {ref!r}"))
     return res
 
 # }}}
+
+
+def extract(ctx=None):
+    """T-gen: the cache protocol of every caching mapper class and the optimizer's rewrites,
+    regenerated from the live source of the tree under test (lean/PV/Generated/Caching.lean)"""
+    from extract.caching import extract_caching
+    return extract_caching(ctx)
 
 
 PROP = Prop(
     id="C05",
     title="Memoization and mapper optimization are observationally transparent",
     lean_targets=["PV.Properties.C05"],
+    extractors=[extract],
     streams=[KeyEqStream(), MemoTraceStream(), OptKeysStream(), PairStream(), ScalarStream(),
              OptimizerStream()],
     probes=[probe],
@@ -989,6 +1032,10 @@ PROP = Prop(
         "wrap every map_* method / __call__) and harness/c05_classes.py",
         "Python dict lookup = first entry with stored == query (hash consistency is checked by "
         "the keyeq oracle)",
+        "extract/caching.py (ast reader of get_cache_key, CachedMapper.__call__, the CSE mix-in, class "
+        "MROs, the optimizer's loop and its rewritten sources; unknown shapes are errors) and the "
+        "reading lean/PV/Model/CacheTable.lean gives to the statement table (dict.get / is not / "
+        "getattr / call / store / return as Python executes them)",
     ],
     level_text="Lean theorems, generic in the handler family (handlers as first-order programs that "
                "return, raise or ask the dispatcher; unbounded expressions, arguments and history "
@@ -1001,7 +1048,14 @@ PROP = Prop(
                "get_cache_key; for all 32 option sets the rewritten key scheme is equivalent to "
                "the original one on the calls the option set allows, with negation witnesses for "
                "three defects. Tied to the code by key-equality, hit/miss-trace and key-shape "
-               "correspondence and by paired cached/uncached runs of eleven mapper pairs.",
+               "correspondence and by paired cached/uncached runs of eleven mapper pairs; and by "
+               "tables regenerated from the source on every run (T-gen): the key tuple, the "
+               "statement-by-statement body of CachedMapper.__call__ and of the CSE mix-in (proved to "
+               "BE the model's callC / key equalities), the MRO of every stock caching class (proved "
+               "to put the cache around every handler, one class excepted and witnessed), the "
+               "optimizer's rewriting loop, its three transformer classes run on every dispatch "
+               "expression of the model's syntax, and the rewritten source of 4 x 32 optimized "
+               "classes (proved equal to the model's optimize).",
     level_note="Trusted: Lean kernel; purity of handlers; the harness instrumentation. The generic "
                "theorems assume an admissible key universe (handlers do not distinguish equal keys; "
                "discharged where Python == is identity: no 1/True/1.0 clashes, no keyword calls, "
